@@ -183,7 +183,7 @@ GLM_FUNC_QUALIFIER vec<L, U, Q> associatedMax
 
 // Max comparison between 2 variables
 template<length_t L, typename T, typename U, qualifier Q>
-GLM_FUNC_QUALIFIER vec<L, T, Q> associatedMax
+GLM_FUNC_QUALIFIER vec<L, U, Q> associatedMax
 (
 	T x, vec<L, U, Q> const& a,
 	T y, vec<L, U, Q> const& b
@@ -239,7 +239,7 @@ GLM_FUNC_QUALIFIER vec<L, U, Q> associatedMax
 
 // Max comparison between 3 variables
 template<length_t L, typename T, typename U, qualifier Q>
-GLM_FUNC_QUALIFIER vec<L, T, Q> associatedMax
+GLM_FUNC_QUALIFIER vec<L, U, Q> associatedMax
 (
 	T x, vec<L, U, Q> const& a,
 	T y, vec<L, U, Q> const& b,
